@@ -206,8 +206,8 @@ def obligations(tier):
     obs = []
     for role in ("client", "server"):
         for nf in ((1, 2, 3) if T else (1, 2)):
-            for na in ((0, 1, 2, 3, 4) if T else (0, 1, 2, 3)):
-                for nr in (0, 1, 2):
+            for na in ((0, 1, 2, 3, 4) if T else (0, 1, 2)):
+                for nr in ((0, 1, 2) if T else (0, 1)):
                     for local in (False, True):
                         prep, run = ncid_ob(role, nf, na, nr, local)
                         obs.append(Ob("C18.ncid.%s.f%d.a%d.r%d.%s" % (role, nf, na, nr, "switch" if local else "noswitch"), run, cm.conn_shims, [Q + "_handle_new_connection_id_frame", Q + "_retire_peer_cid", Q + "_consume_peer_cid", Q + "change_connection_id"], bounds="arbitrary valid peer-CID state with %d spare and %d already retired numbers (all sequence numbers and the retire-prior-to mark symbolic in [0,1000]), %s local switch, then %d NEW_CONNECTION_ID frame(s) with arbitrary sequence number and retire-prior-to" % (na, nr, "a" if local else "no", nf), prepare=prep, budget_s=2400 if T else 280, max_decisions=1500, stubs=["CryptoPair -> transparent"]))
